@@ -48,7 +48,7 @@ class Session:
             return 0
         if h.closed:
             return 3
-        return 2 if "+" in h.mode else 1
+        return 2 if "+" in getattr(h, "mode", "rb") else 1           # (an in-memory stream has no mode: counts as read-only)
 
     def close(self):
         h = getattr(self.t, "handler", None)
@@ -246,7 +246,7 @@ def judge(chk, seq, recs, mres):
         in_wctx = inside and write_ctx
         # ---- oracle on the implementation alone
         found = None
-        auto_reader = name in READERS and name not in PLAIN and name != "eq"
+        auto_reader = name in READERS and name not in PLAIN
         if name in ("clobber", "restore"):
             pass                      # somebody else's write, not the object's
         elif not valid and not inside and (name == "enter" or auto_reader) and not raised:
@@ -297,8 +297,7 @@ def judge(chk, seq, recs, mres):
         elif name in ("exit", "exit_exn", "copy_switch"):
             inside, write_ctx, allowed = False, False, False          # the object copy() returns starts from scratch
         elif name in READERS and name not in PLAIN and not inside:
-            if not (name == "eq" and hcode == 0):
-                allowed = False          # the implicit context consumed the permission when it exited
+            allowed = False          # the implicit context consumed the permission when it exited
 
 
 def run(chk):
